@@ -26,6 +26,7 @@ from vmon import groups as G
 from vmon.harness import CaseSkip
 
 PROP = "C18"
+GROWTH_KNOWN_MAX_RATIO = 1e3
 RULE = ("case = (symmetry [all 7], vector rank 1-3, map kind full/spectator/sum-of-local/shifted, Hermitian or not, dtype, "
         "block density, sector dimension 2-300 (mostly >= 10), operator norm 0.1-30, start vector kind random/partial/"
         "eigvec/near-invariant/3-eigvec combination/zero, solver expmv|eigs|lin_solver and its parameters: t real/"
@@ -566,7 +567,10 @@ def judge_expmv(ctx, P, params, out_vec, exact, kappa, label="expmv", vec=None, 
             # demonstrated mechanism: every step ended in a "happy breakdown" (h < tol, absolute) and the coupling h was dropped,
             # but its effect on exp(tA)v is of order |t| h, not h
             key = "value:expmv:happy-breakdown-threshold-ignores-|t|"
-        elif est is not None and est <= 1.2 * tol * 1.01 and growth > 30:
+        elif est is not None and est <= 1.2 * tol * 1.01 and growth > 30 and err <= GROWTH_KNOWN_MAX_RATIO * allowed:
+            # (lead) the recorded finding is a *modest* excess over the tolerance (worst ratio err/allowed observed on the unchanged
+            # tree is recorded below); an error orders of magnitude larger is a different defect and keeps its generic key
+            ctx.margin("known-finding:growth>e^30:err/allowed (bound %g)" % GROWTH_KNOWN_MAX_RATIO, err, GROWTH_KNOWN_MAX_RATIO * allowed)
             # demonstrated mechanism: for strongly growing (exp(tA) ~ e^30 and more) problems the accumulated error estimate
             # stays below tol while the true error is orders of magnitude larger
             key = "value:expmv:error-estimate-optimistic:growth>e^30"
